@@ -14,6 +14,9 @@ DATA_ATTR = {"plain": "#[sv::data]", "opt": "#[sv::data(opt)]", "raw": "#[sv::da
              "inst": "#[sv::data(instantiate)]", "instopt": "#[sv::data(instantiate, opt)]"}
 
 
+DATA_ATTR_B = {"rawopt": "#[sv::data(opt, raw)]", "instopt": "#[sv::data(opt, instantiate)]"}
+
+
 def legacy_method_src(prog, m):
     ok = "true" if m["outcome"] == "ok" else "false"
     return ("        #[sv::msg(reply)]\n        #[allow(deprecated)]\n"
@@ -30,7 +33,8 @@ def method_src(prog, m):
     second = '"none"'
     if m["on"] == "success":
         if m["data"] != "none":
-            params.append("%s data: %s" % (DATA_ATTR[m["data"]], DATA_TY[m["data"]]))
+            attr = DATA_ATTR_B[m["data"]] if m.get("spell") == "b" and m["data"] in DATA_ATTR_B else DATA_ATTR[m["data"]]
+            params.append("%s data: %s" % (attr, DATA_TY[m["data"]]))
             if m["data"] in ("inst", "instopt"):
                 recs.append("let dataj = rec::inst_data(&data);")
             else:
